@@ -1,6 +1,7 @@
 package env
 
 import (
+	gethCommon "github.com/ethereum/go-ethereum/common"
 	"fmt"
 	"math/big"
 	"sort"
@@ -196,7 +197,12 @@ func (e *BridgeEnv) prophecyID(s string) int64 {
 	return id
 }
 
+// EthID: one id per Ethereum ACCOUNT — the spellings of one address (checksummed, lower case, upper case, without the 0x
+// prefix) all name the same account on Ethereum and in the relayer (common.HexToAddress).
 func (e *BridgeEnv) EthID(addr string) int64 {
+	if gethCommon.IsHexAddress(addr) {
+		addr = gethCommon.HexToAddress(addr).Hex()
+	}
 	if id, ok := e.EthAddrID[addr]; ok {
 		return id
 	}
